@@ -64,20 +64,21 @@ class Item:
         self.field, self.chain, self.raw = field, chain, raw
         vals, linking, neg = R.apply_chain(raw, chain, has_field=field is not None)
         self.values, self.linking, self.neg = vals, linking, neg
-        self.fields = None  # set to a list by 1:n mappings
 
     def formula(self):
-        flds = self.fields if self.fields is not None else [self.field]
-        outs = []
-        for fld in flds:
-            if not self.values:
-                f = F.a_null(fld)
-            else:
-                fs = [RR.value_formula(fld, v, {"native_cidr": True}) for v in self.values]
-                f = fs[0] if len(fs) == 1 else (F.AND(fs) if self.linking == "and" else F.OR(fs))
-            outs.append(f)
-        f = F.OR(outs)
+        fld = self.field
+        if not self.values:
+            f = F.a_null(fld)
+        else:
+            fs = [RR.value_formula(fld, v, {"native_cidr": True}) for v in self.values]
+            f = fs[0] if len(fs) == 1 else (F.AND(fs) if self.linking == "and" else F.OR(fs))
         return F.NOT(f) if self.neg else f
+
+    def clone(self, field):
+        c = copy.copy(self)
+        c.field = field
+        c.values = list(self.values)
+        return c
 
 
 def build_det(defn):
@@ -95,6 +96,11 @@ def build_det(defn):
 
 
 def det_formula(node):
+    if node[0] == "alt":  # alternatives created by a one-to-many field mapping: OR of the items (AND of the negated items)
+        fs = [it.formula() for it in node[1]]
+        if not fs:
+            return None
+        return F.AND(fs) if node[2] else F.OR(fs)
     if node[0] == "map":
         fs = [it.formula() if isinstance(it, Item) else det_formula(it) for it in node[1]]
         if not fs:
@@ -105,7 +111,7 @@ def det_formula(node):
 
 
 def all_items(node):
-    for x in node[1]:
+    for x in list(node[1]):
         if isinstance(x, Item):
             yield node, x
         else:
@@ -155,6 +161,11 @@ SCOPES = [
 ]
 
 
+SCOPE_G1 = ("field-g1", {"field_name_conditions": [{"type": "include_fields", "fields": ["g1"]}]}, None)
+SCOPE_H2 = ("field-h2", {"field_name_conditions": [{"type": "include_fields", "fields": ["h2", "g2"]}]}, None)
+SCOPE_FIELDS = {"field": ["f1"], "field-g1": ["g1"], "field-h2": ["h2", "g2"]}
+
+
 def plain_values(it):
     out = []
     for v in it.values:
@@ -165,14 +176,15 @@ def plain_values(it):
 
 
 def name_ok(scope, name):
-    return scope != "field" or name == "f1"
+    return scope not in SCOPE_FIELDS or name in SCOPE_FIELDS[scope]
 
 
 def item_ok(scope, it):
     """item-level gate for value transformations"""
-    if scope == "field":
-        flds = it.fields if it.fields is not None else [it.field]
-        return "f1" in flds or any(v[0] == "fieldref" and v[1] == "f1" for v in it.values)
+    if scope in SCOPE_FIELDS:
+        flds = [it.field]
+        names = SCOPE_FIELDS[scope]
+        return any(f in names for f in flds) or any(v[0] == "fieldref" and v[1] in names for v in it.values)
     if scope == "item":
         return any(re.match(".*v1", p) for p in plain_values(it))
     return True
@@ -213,14 +225,7 @@ def t_fieldmap(namefn):
                             return [("fieldref", x, v[2], v[3]) for x in ts]
                     return [v]
                 map_values(it, vf)
-                if scope == "field" and not item_ok(scope, it) and not name_ok(scope, it.field):
-                    continue
-                if it.fields is not None:  # already mapped one-to-many: every alternative field is mapped
-                    newfs = []
-                    for fld in it.fields:
-                        t = namefn(fld) if name_ok(scope, fld) else None
-                        newfs.extend([fld] if t is None else ([t] if isinstance(t, str) else t))
-                    it.fields = newfs
+                if scope in SCOPE_FIELDS and not item_ok(scope, it) and not name_ok(scope, it.field):
                     continue
                 if name_ok(scope, it.field):
                     t = namefn(it.field)
@@ -238,8 +243,13 @@ def t_fieldmap(namefn):
                             map_values(it, wrap)
                         if isinstance(t, str):
                             it.field = t
-                        else:
-                            it.fields = list(t)
+                        else:  # one item per target field
+                            alts = [it.clone(x) for x in t]
+                            idx = next(i for i, x in enumerate(parent[1]) if x is it)
+                            if parent[0] == "alt":
+                                parent[1][idx : idx + 1] = alts
+                            else:
+                                parent[1][idx] = ["alt", alts, it.neg]
         newf = []
         for f in m.fields:
             t = namefn(f) if name_ok(scope, f) else None
@@ -251,13 +261,13 @@ def t_fieldmap(namefn):
 def t_drop(m, scope):
     for dn, node in m.dets.items():
         def prune(n):
-            n[1] = [x for x in n[1] if not (isinstance(x, Item) and gate(x))]
+            n[1][:] = [x for x in n[1] if not (isinstance(x, Item) and gate(x))]
             for x in n[1]:
                 if not isinstance(x, Item):
                     prune(x)
-            n[1] = [x for x in n[1] if isinstance(x, Item) or x[1]]
+            n[1][:] = [x for x in n[1] if isinstance(x, Item) or x[1]]
         def gate(it):
-            return item_ok(scope, it) if scope in ("field", "item") else True
+            return item_ok(scope, it) if scope in ("field", "item", "field-g1", "field-h2") else True
         prune(node)
 
 
@@ -417,6 +427,7 @@ def catalogue():
     add("addcond-tmpl", {"type": "add_condition", "conditions": {"src": "$category", "p": "pre-$product"}, "template": True}, t_add_condition({"src": "$category", "p": "pre-$product"}, template=True), "rule", False)
     add("replace", {"type": "replace_string", "regex": "v", "replacement": "W"}, t_values(r_replace("v", "W"), numbers=True), "value", False)
     add("replace-group", {"type": "replace_string", "regex": "^(.)1$", "replacement": "\\g<1>-one"}, t_values(r_replace("^(.)1$", "\\g<1>-one"), numbers=True), "value", False)
+    add("replace-prefix", {"type": "replace_string", "regex": "^", "replacement": "x"}, t_values(r_replace("^", "x"), numbers=True), "value", False)
     add("replace-miss", {"type": "replace_string", "regex": "zzz", "replacement": "W"}, t_values(r_replace("zzz", "W"), numbers=True), "value", True)
     add("replace-skip", {"type": "replace_string", "regex": "v", "replacement": "W*", "skip_special": True}, t_values(r_replace("v", "W*", True, False), numbers=True), "value", False)
     add("replace-skip-interp", {"type": "replace_string", "regex": "v", "replacement": "W*", "skip_special": True, "interpret_special": True}, t_values(r_replace("v", "W*", True, True), numbers=True), "value", False)
@@ -493,7 +504,7 @@ def judge(res, rname, product, steps, label):
             scope = sc[0]
             if scope == "rule-false" or (scope == "rule-true" and product != "windows"):
                 continue
-            rf(m, scope if scope in ("field", "item") else "none")
+            rf(m, scope if scope in ("field", "item", "field-g1", "field-h2") else "none")
         ref = m.formula()
         ref_attrs = {"fields": m.fields, "logsource": {k: v for k, v in m.logsource.items() if v is not None}, "state": m.state, "custom": m.custom}
     except (R.Reject, R.Unspecified, RR.RefUnsupported, Unspec, ValueError, KeyError) as e:
@@ -602,6 +613,9 @@ def space(tier):
                 continue
             for rn in ("multi", "fieldref", "two-dets", "keywords", "cased", "neq", "all"):
                 yield rn, "windows", [a + (SCOPES[0],), b + (SCOPES[0],)]
+                if a[0] == "map-1:n" and b[3] == "value":
+                    for sb in (SCOPE_G1, SCOPE_H2):
+                        yield rn, "windows", [a + (SCOPES[0],), b + (sb,)]
                 if BOUNDS[tier]["chain_scopes"]:
                     for sa, sb in ((SCOPES[1], SCOPES[0]), (SCOPES[0], SCOPES[1]), (SCOPES[2], SCOPES[0]), (SCOPES[0], SCOPES[2])):
                         yield rn, "windows", [a + (sa,), b + (sb,)]
